@@ -30,9 +30,8 @@ def save_parameters(
         # torch.save(self.optimizer.state_dict(), 'checkpoint-new.json')
         with open(file_name + '.new', 'w') as fp:
             json.dump(parameters, fp, cls=ParameterEncoder, indent=2)
-        os.rename(file_name, file_name + '.old')
-        os.rename(file_name + '.new', file_name)
-        os.remove(file_name + '.old')
+        # atomic: the checkpoint name always refers to a complete file
+        os.replace(file_name + '.new', file_name)
 
 
 def pack_tensor(parameters: List[Parameter], tensor: torch.Tensor) -> None:
